@@ -1214,3 +1214,29 @@ def enum_codec_inverse(ctx):
                                       'not survive a round trip' % (name, cv, rv['adt'].split('::')[-1], rv['variant'], st['ln'], cv, want),
                                       'inverse of bool::from', fb.where(st['ln']))
     ctx.floor(n, 4 if _ONLY[0] is None else 1, 'enum constants chosen by a wire tag')
+
+
+READ_REMOVALS = (r'^std::vec::Vec::<[^>]*>::(dedup|dedup_by|dedup_by_key|retain|retain_mut|truncate|pop|remove|swap_remove|drain|clear|split_off|sort|sort_by|sort_by_key|sort_unstable|sort_unstable_by|reverse)$',
+                 r'^core::slice::<impl \[T\]>::(sort|sort_by|sort_by_key|sort_unstable|sort_unstable_by|sort_unstable_by_key|reverse|rotate_left|rotate_right)$',
+                 r'^std::collections::LinkedList::<[^>]*>::(pop_front|pop_back|clear|split_off)$')
+
+
+@rule('C13', 'read-keeps-every-element', configs=('default', 'p256'))
+def read_keeps_every_element(ctx):
+    """What `read` returns is what the bytes say, element for element: between the reads and the construction of the value
+    nothing is removed, deduplicated or re-sorted (two different byte strings would decode to the same object — and for an
+    encapsulation the duplicated component is not covered by any digest)."""
+    F = ctx.F
+    n = 0
+    for (i, w, r, ln) in serializable_impls(F):
+        if r is None:
+            continue
+        name = norm_ty(i['self'])
+        n += 1
+        bad = []
+        for fb in lib.family_ext(F, r.key):
+            bad += fb.calls(*READ_REMOVALS)
+        ctx.check(not bad, name, 'read: nothing removed / reordered',
+                  'read of %s post-processes what it has read with %s (line %d): distinct serializations decode to the same value'
+                  % (name, bad[0].name if bad else '', bad[0].ln if bad else 0), 'no removal / sort between reading and building', r.where())
+    ctx.floor(n, 20 if _ONLY[0] is None else 1, 'read implementations')
